@@ -89,6 +89,19 @@ fn exec(line: &str) -> String {
                 match t[0] { "arith_ci" => show64(mean::Arithmetic::<f64>::ci(c, &d)), "harmonic_ci" => show64(mean::Harmonic::<f64>::ci(c, &d)), _ => show64(mean::Geometric::<f64>::ci(c, &d)) }
             }
         }
+        "arith_ci_inc" => {
+            // incremental route: append one by one through the trait, then ci_mean
+            let c = conf(t[2], t[3]);
+            if is32 {
+                let mut a = mean::Arithmetic::<f32>::new();
+                for x in &t[4..] { let _ = StatisticsOps::append(&mut a, f(x) as f32); }
+                show32(a.ci_mean(c))
+            } else {
+                let mut a = mean::Arithmetic::<f64>::new();
+                for x in &t[4..] { let _ = StatisticsOps::append(&mut a, f(x)); }
+                show64(a.ci_mean(c))
+            }
+        }
         "arith_state" => {
             // state after appending the data one by one: sum comp sum_sq comp_sq count
             let mut a = mean::Arithmetic::<f64>::new();
